@@ -356,7 +356,8 @@ func (q *Queue[T]) Distributor() Distributor[T] {
 			msg, err = q.Wait(ctx)
 			return msg, err
 		},
-		size: q.tracker.len,
+		// q.Len holds the mutex; the tracker's own len method does not.
+		size: q.Len,
 	}
 }
 
